@@ -4,19 +4,26 @@ import vlib
 PID = "C07"
 MANIFEST = {
     "technique": "Lean 4 theorems over a hand model of FuncFrame::init/finalize and x86/AArch64 emit_prolog/emit_epilog executed on an "
-                 "abstract stack machine (all frames, all entry stacks, all confined bodies) + C++/Lean correspondence + Lean monitor on the real output",
-    "text": "Lean proves for every frame the model's finalize produces (any dirty/preserved masks, sizes, alignments, FP, dynamic alignment, "
-            "callee-pops; no-overflow side conditions stated) that the reported areas are ordered, disjoint and aligned (finalize_layout), and that "
-            "on the stack machine of Spec/StackMachine.lean prolog; any body confined to the declared areas; epilog returns to the caller's return "
-            "address with sp = entry sp + return-address size + callee cleanup and every callee-saved register restored, with the promised body "
-            "alignment and stack-argument offsets (x86-32/x86-64 incl. FP, dynamic alignment with and without FP, vec/mask/mm saves; AArch64 "
-            "without dynamic alignment). The model is tied to the real FuncFrame and emit_prolog/emit_epilog (Builder node lists) by running both on "
-            "the same seeded frames; the Lean monitor (same predicates as the theorems) executes the *implementation's* prolog/epilog around the most "
-            "hostile admissible body for every entry-stack residue and judges every frame.",
+                 "abstract stack machine (all frames, all entry stacks, all confined bodies; induction over push/pop and save-slot lists) "
+                 "+ C++/Lean correspondence + Lean monitor run on the real prolog/epilog",
+    "text": "Lean proves (Props/C07.lean, 11 theorems, no sorry, axioms propext/Classical.choice/Quot.sound): finalize_layout - for every frame "
+            "handed to finalize (power-of-two alignments, no 32-bit wrap) call area, local area, extra-register save area, DA slot, push/pop "
+            "area and return address are ordered, disjoint and aligned as reported; x86_prolog_body_epilog - for every x86-32/x86-64 frame of "
+            "every built-in convention (x86In_init, x86_wf_of_finalize), every entry state the convention allows and EVERY body confined to the "
+            "declared areas, prolog;body;epilog on the stack machine returns to the caller's return address with sp = entry + W + callee "
+            "cleanup and every callee-saved GP/vector/mask/mm register restored, the body sees the promised sp alignment and stack arguments "
+            "at the reported offsets (FP / no FP / dynamic alignment with DA slot or FP / SA register / SSE-AVX save modes / callee-pops); "
+            "a64_prolog_body_epilog_partial - the same on AArch64 (stp/ldp pairs, pre/post index, FP/LR, 8- and 16-byte vector saves) for "
+            "frames without dynamic alignment or SA register, which is the open finding proved false at its witness (a64_dynalign_witness). "
+            "The model is tied to the real FuncFrame and emit_prolog/emit_epilog (Builder node lists) by running both on the same seeded "
+            "frames; the Lean monitor (same predicates as the theorems) executes the *implementation's* prolog/epilog around the most hostile "
+            "admissible body (junkBody_ok) at every entry-stack residue mod 128 and judges every frame.",
     "note": "Trusted: Lean kernel; Spec/StackMachine.lean + Spec/FrameSpec.lean as the meaning of the instructions and of the property; the "
             "harness/driver diff. Modelled: CallConv members read by FuncFrame::init, FuncFrame::init/setters/finalize, x86 and a64 "
             "emit_prolog/emit_epilog. Not modelled: rapass.cpp/rastack.cpp hand-over (covered by C05's validated programs only), encodability of the "
-            "emitted instructions (C01/C02). AArch64 dynamic alignment / SA register is an open finding (C07-a64-dynalign). The model follows fixes/C07-1..3.patch.",
+            "emitted instructions (C01/C02); update_* setters and user overrides of preserved masks are covered by correspondence+monitor only. "
+            "AArch64 dynamic alignment / SA register is an open finding (C07-a64-dynalign). The model follows fixes/C07-1..4.patch; until they are "
+            "applied the check reports those four classes on /repo with concrete replays.",
 }
 MODS = ["AsmjitVerif.Props.C07"]
 
@@ -244,6 +251,7 @@ def run(res):
                 tags.append("sareg")
             k2 = "shape:" + ("+".join(tags) or "plain")
             kinds[k2] = kinds.get(k2, 0) + 1
+    res.coverage["repo"] = "%s (tree %s)" % (vlib.REPO, vlib.repo_hash())
     res.coverage["evaluations"] = len(ops)
     res.coverage["distinct_nontrivial"] = len({o for o, r in zip(ops, impl) if r.startswith("ok ")})
     res.coverage["rule"] = ("seeded frames over arch x calling convention x windows x dirty masks (empty/all/preserved/single/random) x attributes x "
